@@ -24,7 +24,7 @@ CHECKS = {
         text="Decides on MIR: (X1) every arithmetic op of the fee predicate discharged by intervals over the full input ranges, None arms of checked "
              "ops return false, in both overflow configurations (thorough); (X2) the returned comparison's operator tree, checked ops read as exact on "
              "their Some paths, equals total >= amount + base + floor(amount*ppm/10^6); (T) field widths; (F) the failure encoder's byte layout per "
-             "variant equals 0x20,26||be32||be32||be16 and the two constant codes; (P) the policy payload is HtlcManagerParams::routing_policy; (G) gates; (P) no field of the params/policy is modified after construction; (L) without stored state the lifecycle waits the configured timeout itself before its select, so a queued rejection is delivered whenever that timeout is non-zero (C11-T1/T4).",
+             "variant equals 0x20,26||be32||be32||be16 and the two constant codes; (P) the policy payload is HtlcManagerParams::routing_policy; (G) gates; (P) no field of the params/policy is modified after construction; (W) option wiring; (Q) request fields verbatim; (L) without stored state the lifecycle waits the configured timeout itself before its select, so a queued rejection is delivered whenever that timeout is non-zero (C11-T1/T4).",
         note="Exactness over u64 x u64 x u32 x u32 follows from X1+X2, it is not enumerated. Only cmp(total, sum) / cmp(total-amount, sum) shapes are accepted as normal form.",
         design="5/C12"),
     "C02": dict(
@@ -45,14 +45,14 @@ CHECKS = {
     "C08": dict(
         technique="dominance rules on the lifecycle + per-method write-record extraction from Datastore impls (MIR def-use)",
         text="Decides W1 (pay only through add_payment_attempt==Ok; the impl returns Ok only after its awaited Pending write, which comes first), W2 (Free only "
-             "in mark_failed, guarded, generation-conditional), W3 (Succeeded stores the settling preimage), W4 (fetch mapping), W5 (no deletion, per-hash keys), W6 (the provider clauses C15-V*/C16-D behind `nothing pending or complete`, which is what releases the Free marker).",
+             "in mark_failed, guarded, generation-conditional), W3 (Succeeded stores the settling preimage), W4 (fetch mapping), W5 (no deletion, per-hash keys), W6 (the provider clauses C15-V*/C16-D behind `nothing pending or complete`, which is what releases the Free marker), X (one lifecycle per hash; its table entry is removed only by its own final answer).",
         note="Not decided: every execution prefix as a crash image at the node; overlapping lifecycles.",
         design="5/C08"),
     "C09": dict(
         technique="effect-sequence typestate: explicit fixed point over abstract stored images using write records extracted from MIR",
         text="Extracts (key kind, mode, generation guard, payload) of every datastore write per Datastore method, explores all images reachable by crashes / "
              "rejected / applied-but-failed writes, and requires every fault-free recovery write to be satisfiable on every reachable image; must-create keys "
-             "must be clock-fresh; (E) every lifecycle path, failed-write exits included, answers exactly once and thereby removes the table entry; (V) wait_payment, on which the recovery of a stored Pending state hangs, honours C15-V* (a failed part is neither an error nor `nothing pending` while another part lives); (B) nothing blocks while the table lock is held (C14-L1), so a lifecycle can always answer and remove its entry.",
+             "must be clock-fresh; (E) every lifecycle path, failed-write exits included, answers exactly once and thereby removes the table entry; (V) wait_payment, on which the recovery of a stored Pending state hangs, honours C15-V* (a failed part is neither an error nor `nothing pending` while another part lives); (B) nothing blocks while the table lock is held (C14-L1), so a lifecycle can always answer and remove its entry; (F) the fetch mapping reports every image an interrupted run can leave.",
         note="Assumes documented CLN datastore mode semantics; the lifecycle's choice of recovery call per stored state is decided by C02-S2/S4, C05-A2 (re-checked here).",
         design="5/C09"),
     "C11": dict(
@@ -74,13 +74,13 @@ CHECKS = {
         text="Decides R1 (pay only via the ready arm), R2 (ready only behind fee_sufficient(held sum, amount) and no fail request; single send site), R3 (held "
              "sum discipline: one write, sum+htlc amount, overflow-free, counted<=>held), R4 (budget = held sum saturating-minus amount, read under the lock "
              "after readiness), R5 (amount only for amountless invoices), R6 (provider forwards verbatim, no exemptfee/maxfeepercent/partial), R7 (held until fate known), "
-             "R8 (amount table of the extractor), R9 (an HTLC whose TrampolineInfo, amount included, differs from the set's is rejected before it is counted), R10 (pay reports failure - which releases the counted HTLCs - only once nothing is pending or complete: C16-D, C15-V*).",
+             "R8 (amount table of the extractor), R9 (an HTLC whose TrampolineInfo, amount included, differs from the set's is rejected before it is counted), R10 (pay reports failure - which releases the counted HTLCs - only once nothing is pending or complete: C16-D, C15-V*), Q (amounts / expiries / declared total are the hook's JSON values: no hand-written field deserialiser).",
         note="Not decided: the inequality for every multiset by enumeration (follows from R2-R4 and C12); HTLC arrivals racing with the select.", design="5/C03"),
     "C04": dict(
         technique="operator-tree matching of the max-delay expression + who-writes rule on the minimum expiry + gate ordering (MIR)",
         text="Decides E (max_cltv_delta = min(clamp_u16(satsub(satsub(min expiry, height), safety delta)), policy delta)), T (height/expiry read after readiness, "
              "expiry under the lock), M (single min-update of the stored expiry on the listener-storing paths, initial u32::MAX), F (maxdelay forwarded), "
-             "G (relative-expiry gate before add, with the configured policy), H (the height cell read at pay time only ever rises: C20-W).",
+             "G (relative-expiry gate before add, with the configured policy), H (the height cell read at pay time only ever rises: C20-W), L (initial successful query before start, poll loop: C20-L), W (option wiring), Q (request fields verbatim).",
         note="Not decided: numeric value for every input by enumeration; height advancing between the read and the node's route computation.", design="5/C04"),
     "C06": dict(
         technique="panic-site discipline (guards/intervals/origins) over the handler scope + exactly-once path counting + lock-scope/latch rules (MIR)",
@@ -91,28 +91,28 @@ CHECKS = {
     "C07": dict(
         technique="drain-loop structure rule + gate ordering/guard classification + select-arm provenance (MIR)",
         text="Decides U1 (same cloned response to every popped listener; loop ends only on None; only push/pop mutate the list), U2 (one answer per lifecycle, one "
-             "lifecycle per entry), U3 (all three rejections precede add, have the stated guards/responses; fail flag disables readiness), U4 (fail arm forwards, no pay), U5 (no failure is answered to one HTLC directly - by the classification or before the table entry is taken - depending on that HTLC's own amount/expiry/declared total).",
+             "lifecycle per entry), U3 (all three rejections precede add, have the stated guards/responses; fail flag disables readiness), U4 (fail arm forwards, no pay), Q (request fields verbatim), U5 (no failure is answered to one HTLC directly - by the classification or before the table entry is taken - depending on that HTLC's own amount/expiry/declared total).",
         note="Not decided: which of two simultaneously ready select arms tokio picks.", design="5/C07"),
     "C10": dict(
         technique="edge-guard rules + per-definition arm classification of the amount + iterator/selector shape of the route-hint gate (MIR)",
         text="Decides H (hash gate), S (signature gate; payee/bolt11/invoice provenance; record path 16->33001), A (amount arm table per reaching definition; over-long "
-             "amount field = absent), R (last hop of any hint vs local key; Trampoline only via no-hint or allowed; else Fail), C (unusable metadata => continue), L (records are looked up by type equality over the whole list, no ordering assumed), X (every TrampolineInfo the extractor returns is built there from this request), E (parts whose info - amount included - differs are rejected by a comparison that looks at every field).",
+             "amount field = absent), R (last hop of any hint vs local key; Trampoline only via no-hint or allowed; else Fail), C (unusable metadata => continue), L (records are looked up by type equality over the whole list, no ordering assumed), X (every TrampolineInfo the extractor returns is built there from this request), E (parts whose info - amount included - differs are rejected by a comparison that looks at every field), U (= C18-U: what a well-formed amount field is).",
         note="Not decided: lightning-invoice's parser/signature recovery (trusted).", design="5/C10"),
     "C13": dict(
         technique="MAY-effect summaries over the call graph + await-freedom of pre-lock paths + rewrite provenance (MIR)",
         text="Decides N1 (paths that do not take the lock are Yield-free and call only synchronous effect-free functions; lock only for classified trampoline with "
              "forward_msat), N2 (forwards and unusable metadata reach only continue), R1 (single rewrite = payload clone minus record 16, guarded), R2 (order-preserving "
-             "removal), R3 (C18-T1/L1 re-evaluated), L (lookup by type equality, no ordering assumed); try_lock/semaphores count as effects, and the extractor returns only infos it built from this request.",
+             "removal), R3 (C18-T1/L1 re-evaluated), L (lookup by type equality, no ordering assumed); try_lock/semaphores count as effects, and the extractor returns only infos it built from this request; W (no permit pool / shared lock between the node's request and the handler).",
         note="Not decided: byte equality by enumeration (reduced to C18's clauses).", design="5/C13"),
     "C14": dict(
         technique="lock-scope analysis (guard live regions vs. Yield/poll sites) + latch rule + ADT field table (MIR)",
         text="Decides L1 (for every payments-table guard: only add-listener/fail-requester awaited, which await only latched sends; no second lock/RPC), L2 (no shared "
-             "lock/channel/connection in Rpc/ClnDatastore/PayPaymentProvider; per-call connections; other guards never across await), K (per-hash keys; no globals), T (own task per entry).",
+             "lock/channel/connection in Rpc/ClnDatastore/PayPaymentProvider; no Semaphore/Barrier field or acquisition anywhere in the crate; per-call connections; other guards never across await), K (per-hash keys; no globals), T (own task per entry).",
         note="Not decided: fairness of tokio and of the node's RPC socket.", design="5/C14"),
     "C15": dict(
         technique="dominance/ordering of awaited RPCs + switch-table extraction of tolerated error codes + loop-shape rule (MIR)",
         text="Decides V1 (preimage provenance), V2 (Ok(None) only after the stream of one waitsendpay per PENDING-listed part is exhausted; no skip/break/timeout), V3 (tolerated "
-             "codes exactly 202/203/204/208/209; nothing else continues or becomes Ok), V4 (PENDING listing returns before the COMPLETE query is issued), V5 (filters), V6 (no tokio::time primitive on the wait path, the ClnRpc implementation of listsendpays/waitsendpay included), V7 (the ClnRpc implementation hands the node's error on with its numeric code: never through anyhow / RpcError::General), V8 (every ClnRpc call returns the reply of an RPC made by that call: no cached listing).",
+             "codes exactly 202/203/204/208/209; nothing else continues or becomes Ok), V4 (PENDING listing returns before the COMPLETE query is issued), V5 (filters), V6 (no tokio::time primitive on the wait path, the ClnRpc implementation of listsendpays/waitsendpay included), V7 (the ClnRpc implementation hands the node's error on with its numeric code: never through anyhow / RpcError::General), V8 (every ClnRpc call returns the reply of an RPC made by that call: no cached listing), V9 (one request per call: no re-send), and within V2: `no payment` only where the COMPLETE listing had no preimage.",
         note="Not decided: parts created after the snapshot by a pay still running in the node.", design="5/C15"),
     "C16": dict(
         technique="exit classification of pay() by dominating match arms (status-dispatch table) (MIR)",
@@ -122,7 +122,7 @@ CHECKS = {
     "C17": dict(
         technique="ADT statelessness table + consume-exactly-once rule on decoders + exactly-once send counting + cancel-safety/lock-scope rules on the driver (MIR)",
         text="Decides D1 (codecs have no state), D2 (line decoder: Ok(None) leaves the buffer, Some consumes split_to(offset+2) with a whole-buffer search for two newlines; "
-             "JSON layers call the inner decoder once), R1 (per-request task replies exactly once, id = request id, one of result/error), R2 (the raced reader future awaits "
+             "JSON layers call the inner decoder once), R1 (per-request task replies exactly once, id = request id, one of result/error; the hand-off to the writer is an awaited send, never try_send), R2 (the raced reader future awaits "
              "only FramedRead::next; handlers behind spawn), R3 (one FramedRead for handshake and driver loop, never taken apart), T (request ids are carried as arbitrary JSON values), W (all output through the single guarded FramedWrite, awaited under the guard, not raced; frame = text+2 newlines; "
              "no other stdout writes), P (panic discipline on codec/driver/logging).",
         note="Not decided: tokio_util Framed* internals; the node's framing.", design="5/C17"),
@@ -134,7 +134,7 @@ CHECKS = {
     "C20": dict(
         technique="who-writes rule through the height guard + dominating comparison + loop-exit reachability on the poll loop (MIR)",
         text="Decides W (single monotone write under one guard region without await), S (sources: getinfo.blockheight and block_added.height reach the cell only via the update fn; provider "
-             "returns the cell), C (one cell: created once, the field holding it never re-assigned), F (every get_info of the ClnRpc implementation asks the node: no cached reply), L (loop exits only via shutdown; poll results continue; constant positive interval; spawned after a successful initial poll), H (subscription wiring).",
+             "returns the cell), C (one cell: created once, the field holding it never re-assigned), F (every get_info of the ClnRpc implementation asks the node: no cached reply), H2 (notification handlers run in spawned tasks, not inside the raced reader future), L (loop exits only via shutdown; poll results continue; constant positive interval; spawned after a successful initial poll), H (subscription wiring).",
         note="Not decided: the wall-clock bound 'within one interval'.", design="5/C20"),
 }
 
